@@ -34,6 +34,15 @@ ASLOGMAP = "(%s/omniwitness.LogConfig).AsLogMap" % W
 WNEW = "%s/internal/witness.New" % W
 INITM = "%s/internal/witness.initMetrics$1" % W
 
+CLI = "%s/internal/client" % W
+C19_FUNCS = [UPDATE, GETCP, BA + ".addHandler).ServeHTTP", BA + ".addHandler).handleUpdate", FD + ".submitToWitness$1", FD + ".FeedOnce",
+             RS + ".Distributor).distributeForLog", RS + ".Distributor).DistributeOnce", HT + ".Server).getCheckpoint", HT + ".Server).getLogs",
+             CLI + ".dataToLeaves", CLI + ".SumDBClient).tilePath", CLI + ".SumDBClient).TileData", CLI + ".SumDBClient).ParseCheckpointNote",
+             CLI + ".SumDBClient).FullLeavesAtOffset", CLI + ".SumDBClient).PartialLeavesAtOffset",
+             FD + "/sumdb.FeedLog$1", FD + "/sumdb.FeedLog$2", FD + "/sumdb.tileReader).ReadTiles",
+             FD + "/pixelbt.FeedLog$1", FD + "/pixelbt.FeedLog$2", FD + "/pixelbt.tileReader).ReadTiles", FD + "/pixelbt.fetch", FD + "/rekor.getJSON",
+             "golang.org/x/mod/sumdb/tlog.maxpow2"]
+
 PROPS = {
     "C01": {"runs": [{"funcs": [UPDATE] + IM_FUNCS, "tags": ["C01", "C05.cas", "C05.wr", "C05.snap"]}], "assumptions": [A_NOTE, A_STORE, A_MERKLE, A_VCPREFIX,
             "the induction over histories is the pure lemma history_step (discharged by SMT) applied per commit; that commits of different calls are applied in sequence is the storage contract"],
@@ -77,10 +86,16 @@ PROPS = {
             "assumptions": [A_STORE, A_SQL, "gorilla/mux routing: the handler sees the path variable 'logid' of the matched route, and the pattern [a-zA-Z0-9-]+ admits the hex IDs produced by log.ID (assumed)",
                             "json.Marshal of a []string renders exactly its elements (jsonStrs); io.ReadAll returns the response body; net/http client contracts",
                             "SQL Logs(): the SELECT returns the logID column of every row (assumed; only 'the cursor is closed on every path' is proved)"]},
+    "C19": {"runs": [{"funcs": C19_FUNCS, "tags": ["safety", "termination", "pre", "C19"], "safety": True, "nolemmas": True}],
+            "assumptions": ["the standard library, net/http, encoding/json, yaml, base64, bufio, note.Open, backoff and the tlog functions other than maxpow2 neither panic nor hang on any input (assumed); network timeouts and the 16 KiB request cap belong to the HTTP stack",
+                            "tlog.ProveTree's precondition (tree size <= 2^62) is derived from the verified termination condition of tlog.maxpow2 (dependency source from the module cache); that treeProofIndex/treeProof call maxpow2 only with arguments <= t is read, not verified",
+                            "preconditions on handler/feeder state (non-nil collaborators, initialised metric counters, sumdb checkpoints carry 32-byte hashes because tlog.ParseTree accepted them, tiles requested by tlog have the reader's height) are stated in the contracts and established by the constructors (read, not verified)",
+                            "out-of-memory, stack overflow and the recover path are not modelled; fuzzing is not part of this technique"],
+            "not_decided": ["timeouts; panics inside dependencies; the serverless/tiles feeders' proof builders (external library)"]},
     "C20": {"funcs": [UPDATE, INITM], "tags": ["C20"], "assumptions": [A_NOTE, A_STORE, A_VCPREFIX, "monitoring.Counter.Inc adds one to the counter for its label (interface contract)"]},
 }
 
-HOOK_COMMITS = ["7296b73", "af7d29a", "308f21e", "b6239f6", "c655fca", "35e6d9a", "634df6a", "1ee2140", "3f24477", "316cd06", "2c086ba"]
+HOOK_COMMITS = ["7296b73", "af7d29a", "308f21e", "b6239f6", "c655fca", "35e6d9a", "634df6a", "1ee2140", "3f24477", "316cd06", "2c086ba", "34053d6"]
 
 NOT_APPLICABLE = {
     "C14": "whole-system liveness and timing over goroutines, tickers, HTTP servers and stub log servers ('within a bounded number of poll intervals', across restarts): no per-function contract expresses 'eventually catches up', and omniwitness.Main (go/select/errgroup) is outside the generator's subset. Its safety ingredients are decided by C01, C12, C13, C16.",
@@ -124,6 +139,8 @@ MANIFEST_TEXT = {
             "note": "net/http and net/url contracts assumed; 'two verified signatures means the log's and the witness's' is note.Open's assumed contract."},
     "C16": {"level": "Postconditions of the two read handlers, of the witness's GetCheckpoint, of the adapter and of the bundled HTTP client, over the abstract store: getCheckpoint answers 200 with exactly the stored bytes of exactly the log named by the route variable, 404 when the witness holds none (httpForCode proved as a table), and never writes; getLogs' body is the JSON of the list the store returned, and that list is exactly the set of IDs having a checkpoint -- proved for the in-memory store's Logs() by a loop invariant over map iteration (every listed ID has a checkpoint, every ID with a checkpoint is listed, no duplicates); the client turns 404 into exactly os.ErrNotExist (identity), 200 into the body bytes, anything else into an error; 'a refused first submission creates no entry' is Update's C03.a (store unchanged on refusal, key set included).",
             "note": "mux routing, json.Marshal, the SQL SELECT and the net/http client are assumed contracts."},
+    "C19": {"level": "Zero-annotation panic-freedom sweep plus termination: for every instruction that can panic (nil dereference, nil interface / function call, index and slice bounds, slice-to-array conversion, division by zero, negative shift count, nil-map write, make with a bad length, explicit panic) in the functions that touch network input, an obligation that it cannot (given the function's stated preconditions), with machine integers bit-precise; every loop has a `decreases` variant proved to fall and stay non-negative; callee preconditions are obligations at each call -- one of them derived by VERIFYING a dependency from its source: tlog.maxpow2 terminates iff n <= 2^62. Plus ServeHTTP's 'exactly one status line from the documented set' (C10.one).",
+            "note": "library callees are assumed not to panic or hang; see assumptions. The defect found here (F5: tree sizes above 2^62 reach tlog.ProveTree) was replayed on the real sumdb feeder."},
     "C20": {"level": "Ghost-counter postcondition of Update: per call, each of the four counters moves for label logID exactly as the spec-level verdict prescribes and no other (counter, label) moves (frame, quantified). Histories are sums of per-call deltas.",
             "note": "Counter.Inc adds one for its label (interface contract); the four counters are distinct non-nil objects (precondition, established by initMetrics with a factory returning fresh counters: not yet proved)."},
 }
